@@ -161,7 +161,8 @@ fn is_known(known: &[Known], id: &str, sig: &str) -> bool {
 
 struct Shared {
     stop: AtomicBool,
-    deadline: Instant,
+    /// end of the current part's share of the time budget
+    deadline: Mutex<Instant>,
     truncated: AtomicBool,
     found: Mutex<Vec<Found>>,
 }
@@ -223,22 +224,40 @@ fn worker(check: &Check, part: &Part, cases: u64, seed: u64, index: usize, known
     let shrink_cap = Duration::from_secs(
         std::env::var("VERIF_SHRINK_S").ok().and_then(|s| s.parse().ok()).unwrap_or(120),
     );
-    let config = Config {
-        cases: cases.min(u32::MAX as u64) as u32,
-        failure_persistence: None,
-        rng_seed: RngSeed::Fixed(seed),
-        max_shrink_iters: 4000,
-        max_global_rejects: u32::MAX,
-        max_local_rejects: u32::MAX,
-        ..Config::default()
-    };
-    let mut runner = TestRunner::new(config);
     let strategy = pvec(any::<u8>(), 0..=part.tape_max);
     let sample_budget = if index < 4 { 2usize } else { 0 };
     let samples_taken = std::cell::Cell::new(0usize);
     let seen = std::cell::Cell::new(0u64);
 
-    let result = runner.run(&strategy, |tape| {
+    // The cases are run in chunks, each with its own TestRunner seeded from (seed, chunk index):
+    // still a pure function of the seed, but a stop request or the time budget ends the worker at
+    // the next chunk boundary instead of spinning through the remaining cases.
+    let chunk = (cases / 64).clamp(256, 200_000).min(cases.max(1));
+    let mut done = 0u64;
+    let mut chunk_index = 0u64;
+    let mut result = Ok(());
+    while done < cases {
+        if shared.stop.load(Ordering::Relaxed) {
+            break;
+        }
+        if Instant::now() > *shared.deadline.lock().unwrap() {
+            shared.truncated.store(true, Ordering::Relaxed);
+            break;
+        }
+        let n = chunk.min(cases - done);
+        let config = Config {
+            cases: n.min(u32::MAX as u64) as u32,
+            failure_persistence: None,
+            rng_seed: RngSeed::Fixed(splitmix(seed ^ chunk_index.wrapping_mul(0xA24BAED4963EE407))),
+            max_shrink_iters: 4000,
+            max_global_rejects: u32::MAX,
+            max_local_rejects: u32::MAX,
+            ..Config::default()
+        };
+        let mut runner = TestRunner::new(config);
+        done += n;
+        chunk_index += 1;
+        result = runner.run(&strategy, |tape| {
         if let Some((sig, since)) = failed.borrow().as_ref() {
             // shrinking: only the same failure counts, and only within the wall-clock cap
             if since.elapsed() > shrink_cap {
@@ -251,10 +270,6 @@ fn worker(check: &Check, part: &Part, cases: u64, seed: u64, index: usize, known
             };
         }
         if shared.stop.load(Ordering::Relaxed) {
-            return Ok(());
-        }
-        if Instant::now() > shared.deadline {
-            shared.truncated.store(true, Ordering::Relaxed);
             return Ok(());
         }
         seen.set(seen.get() + 1);
@@ -277,7 +292,11 @@ fn worker(check: &Check, part: &Part, cases: u64, seed: u64, index: usize, known
             }
             _ => Ok(()),
         }
-    });
+        });
+        if result.is_err() {
+            break;
+        }
+    }
 
     if let Err(TestError::Fail(_, tape)) = result {
         shared.stop.store(true, Ordering::Relaxed);
@@ -348,7 +367,7 @@ pub fn run_check(check: &Check, tier: &str, seed: u64) -> i32 {
     let scale: f64 = std::env::var("VERIF_CASES_SCALE").ok().and_then(|s| s.parse().ok()).unwrap_or(1.0);
     let shared = Arc::new(Shared {
         stop: AtomicBool::new(false),
-        deadline: started + Duration::from_secs(budget),
+        deadline: Mutex::new(started + Duration::from_secs(budget)),
         truncated: AtomicBool::new(false),
         found: Mutex::new(Vec::new()),
     });
@@ -382,10 +401,14 @@ pub fn run_check(check: &Check, tier: &str, seed: u64) -> i32 {
 
     // 2. generated cases
     let mut per_part: Vec<(&'static str, Stats, u64)> = Vec::new();
-    for part in &check.parts {
+    let budget_end = started + Duration::from_secs(budget);
+    for (i, part) in check.parts.iter().enumerate() {
         let cases = if thorough { part.thorough_cases } else { part.quick_cases };
         let cases = ((cases as f64) * scale).ceil() as u64;
         let t0 = Instant::now();
+        // each part gets an equal share of what is left of the time budget
+        let remaining = budget_end.saturating_duration_since(t0);
+        *shared.deadline.lock().unwrap() = t0 + remaining / (check.parts.len() - i) as u32;
         let stats = run_part(check, part, cases, seed, &known, &shared);
         info(&format!(
             "[{}] part {}: {} cases, {} non-trivial, {} discarded, {:.1}s",
